@@ -114,6 +114,11 @@ def leaf_universe(rng, tier):
     for dt in ("int8", "int32", "uint8", "int16"):
         for nv in (1, 2, 5):
             out.append(S.DiscreteArray(nv, dt, name=f"d{nv}"))
+    # num_values at the very edge of a narrow dtype (the maximum, num_values - 1, still fits)
+    out.append(S.MultiDiscreteArray(jnp.array([128, 3]), "int8", name="md_edge8"))
+    out.append(S.MultiDiscreteArray(jnp.array([256, 2]), "uint8", name="md_edgeu8"))
+    out.append(S.MultiDiscreteArray(jnp.array([32768]), "int16", name="md_edge16"))
+    out.append(S.DiscreteArray(128, "int8", name="d_edge8"))
     for dt in ("int32", "int8"):
         out.append(S.MultiDiscreteArray(jnp.array([2, 3]), dt, name="md"))
         out.append(S.MultiDiscreteArray(jnp.array([[1, 4], [2, 2]]), dt, name="md2"))
@@ -196,6 +201,12 @@ def variants(v, spec, rng):
                 x = mn.copy()
                 x[idx] = mn[idx] + 1
                 out.append(("just_inside_min", x))
+    # weakly typed Python scalars: converted to a JAX array they get the default int32 / float32 dtype, so they are
+    # members only of specs of exactly that dtype (a float never belongs to an integer spec, however it is rounded)
+    extra_raw = []
+    if tuple(spec.shape) == ():
+        extra_raw = [("python_float_fractional", 2.7), ("python_float_integral", 1.0), ("python_int", 1),
+                     ("python_bool", True), ("python_float_above_max", 3.9)]
     # wrong shape / wrong dtype
     out.append(("wrong_shape", np.zeros(tuple(spec.shape) + (1,), dt)))
     if len(spec.shape) >= 1:
@@ -206,7 +217,7 @@ def variants(v, spec, rng):
         out.append(("wrong_dtype16", np.zeros(spec.shape, np.float16)))
     if dt == np.dtype("int32"):
         out.append(("wrong_dtype8", np.zeros(spec.shape, np.int8)))
-    return [(n, jnp.asarray(x)) for n, x in out]
+    return [(n, jnp.asarray(x)) for n, x in out] + extra_raw
 
 
 def events_for_spec(spec, label, rng, evs, with_values=True):
@@ -316,7 +327,9 @@ def gym_contains(space, v):
         if set(d) != set(space.spaces):
             return False
         return all(gym_contains(space.spaces[k], d[k]) for k in d)
-    return space.contains(np.asarray(v))
+    import jax.numpy as jnp
+
+    return space.contains(np.asarray(jnp.asarray(v)))       # the value as validate sees it (converted to a JAX array)
 
 
 def dm_ok(dspec, v):
@@ -324,7 +337,9 @@ def dm_ok(dspec, v):
         if isinstance(dspec, dict):
             d = v._asdict() if hasattr(v, "_asdict") else {k: getattr(v, k) for k in v.__dataclass_fields__}
             return all(dm_ok(dspec[k], d[k]) for k in dspec)
-        dspec.validate(np.asarray(v))
+        import jax.numpy as jnp
+
+        dspec.validate(np.asarray(jnp.asarray(v)))
         return True
     except Exception:  # noqa: BLE001
         return False
@@ -338,10 +353,13 @@ def replacements(spec):
     out = []
     if isinstance(spec, S.Array):
         out.append(([{"attr": "name", "value": "renamed"}], {"name": "renamed"}))
+        imax = np.iinfo(np.dtype(spec.dtype)).max if np.issubdtype(np.dtype(spec.dtype), np.integer) else 0
         if isinstance(spec, S.DiscreteArray):
-            out.append(([{"attr": "num_values", "value": [int(spec.num_values) + 1]}], {"num_values": int(spec.num_values) + 1}))
+            nvn = int(spec.num_values) + 1 if int(spec.num_values) <= imax else int(spec.num_values) - 1
+            out.append(([{"attr": "num_values", "value": [nvn]}], {"num_values": nvn}))
         elif isinstance(spec, S.MultiDiscreteArray):
-            nv = np.asarray(spec.num_values) + 1
+            nv0 = np.asarray(spec.num_values)
+            nv = np.where(nv0 <= imax, nv0 + 1, nv0 - 1)          # stay within what the dtype can hold
             out.append(([{"attr": "num_values", "value": [int(x) for x in nv.reshape(-1)]}], {"num_values": jnp.asarray(nv)}))
         elif isinstance(spec, S.BoundedArray):
             dt = np.dtype(spec.dtype)
